@@ -274,6 +274,11 @@ func ruleSGMap(c *Ctx) {
 		c.Unk("avro.schemaForType/paths", P.pos(t.fn.Pos()), "path budget exceeded")
 		return
 	}
+	tab := map[string]string{}
+	for k, v := range t.rows {
+		tab[k] = setStr(v)
+	}
+	c.Table("schema_table", tab)
 	for _, o := range t.outs {
 		if strings.HasPrefix(o.Type, "?") {
 			c.Unk("avro.schemaForType/return", P.pos(o.Pos), "a return of schema generation is not understood: "+o.Type)
@@ -599,8 +604,10 @@ func ruleSGRec(c *Ctx) {
 		return
 	}
 	hasCycle := dfs(root, nil)
-	// a visited set: a map keyed by reflect.Type (or by type name) consulted in one of these functions other than the registry
-	visited := false
+	// a visited set: a map keyed by reflect.Type (or by type name), other than the registry, that is consulted
+	// before recursing and whose found edge returns at once. For SG-ONCE the found edge must return a schema (a
+	// reference to the already emitted definition), not an error, and entries must not be removed again.
+	visited, onceOK := false, false
 	for _, f := range fns {
 		for _, b := range f.Blocks {
 			for _, in := range b.Instrs {
@@ -619,8 +626,52 @@ func ruleSGRec(c *Ctx) {
 						}
 					}
 				}
-				if isReflectType(mt.Key()) || typeKey(mt.Key()) == "string" {
-					visited = true
+				if !isReflectType(mt.Key()) && typeKey(mt.Key()) != "string" {
+					continue
+				}
+				// the value looked up (or its ok flag) decides a branch whose taken edge returns without recursing
+				var cond ssa.Value = lk
+				if lk.CommaOk {
+					cond = extractOf(lk, 1)
+				}
+				for _, r := range referrersOf(cond) {
+					iff, isIf := r.(*ssa.If)
+					if !isIf {
+						continue
+					}
+					found := iff.Block().Succs[0]
+					region := reachableFrom(found, map[*ssa.BasicBlock]bool{iff.Block().Succs[1]: true})
+					recurses, returnsSchema, returns := false, false, false
+					for rb := range region {
+						if !found.Dominates(rb) {
+							continue
+						}
+						for _, ri := range rb.Instrs {
+							if call, ok := ri.(*ssa.Call); ok && call.Call.StaticCallee() != nil && inSet[call.Call.StaticCallee()] {
+								recurses = true
+							}
+							if ret, ok := ri.(*ssa.Return); ok {
+								returns = true
+								if isNilConst(errOperand(ret)) {
+									returnsSchema = true
+								}
+							}
+						}
+					}
+					if returns && !recurses {
+						visited = true
+						deleted := false
+						for _, f2 := range fns {
+							for _, cs := range callsIn(f2) {
+								if bi, ok := cs.Common.Value.(*ssa.Builtin); ok && bi.Name() == "delete" && types.Identical(cs.Common.Args[0].Type(), lk.X.Type()) {
+									deleted = true
+								}
+							}
+						}
+						if returnsSchema && !deleted {
+							onceOK = true
+						}
+					}
 				}
 			}
 		}
@@ -635,7 +686,7 @@ func ruleSGRec(c *Ctx) {
 		c.Bad("avro.schemaForType/recursion", P.pos(root.Pos()), "the cycle "+strings.Join(cyc, "->")+" recurses on field types with no visited set: a self-referential struct type overflows the stack")
 	}
 	c.Rule("SG-ONCE", "", 0)
-	c.Check(visited, "avro.schemaForStruct/named-once", P.pos(root.Pos()), "a set of already-emitted named types is consulted", "no record of already-emitted named types exists: a struct type used in two positions is defined twice, which Avro forbids")
+	c.Check(onceOK, "avro.schemaForStruct/named-once", P.pos(root.Pos()), "a persistent set of already-emitted named types is consulted and a hit returns a reference", "no record of already-emitted named types exists: a struct type used in two positions is defined twice, which Avro forbids")
 }
 
 func ruleSGNames(c *Ctx) {
